@@ -92,10 +92,10 @@ def check_C04(rep, tier):
             for o in outs:
                 if o not in allow[i]:
                     rep.mismatch({"kind": "outcome", "actual": o, "allowed": allow[i], "family": fam},
-                                 {"scn": sh.scenario(i), "actual": outs, "env": {"ITV_FAMILY": fam}})
+                                 lambda i=i, outs=outs, fam=fam: {"scn": sh.scenario(i), "actual": outs, "env": {"ITV_FAMILY": fam}})
             if not r.get("ret_ok", True):
                 rep.mismatch({"kind": "returned_content_differs", "family": fam},
-                             {"scn": sh.scenario(i), "actual": outs, "env": {"ITV_FAMILY": fam}})
+                             lambda i=i, outs=outs, fam=fam: {"scn": sh.scenario(i), "actual": outs, "env": {"ITV_FAMILY": fam}})
             if not (set(outs) & algo[i]):
                 rep.cov["drift"] += 1
     rep.cov["evaluations"] = nrun
@@ -120,3 +120,68 @@ def check_C04(rep, tier):
     rep.assumptions += ["signatures are unforgeable and key ids injective (Crypto abstraction); ring is trusted",
                         "bounds: auth and signature lists up to the cfg constants over 3 authorised keys + 1 foreign key",
                         "'each key signs at most once' read as: no two signatures share a claimed id or a signer"]
+
+
+# ----------------------------------------------------------------------------- C03
+def check_C03(rep, tier):
+    rep.cov["rule"] = ("TLC enumerates rule lists (all single rules over a 57-rule alphabet, ordered pairs, in either or both "
+                       "lists) x item link states x referenced-step states; each is run through the real rule engine "
+                       "(verif::apply_rules) and the verdict must EQUAL the specification's.  Seeded random scenarios "
+                       "beyond the bounds are validated step by step as traces.  Non-trivial = the specification "
+                       "rejects, or at least one rule consumes a proper, non-empty part of the queue.")
+    allow = {}
+    devs = {}
+    sh = Sharder("C03")
+    nrej = [0]
+
+    def on_scn(s):
+        i = sh.add({k: s[k] for k in ("m", "item", "links")})
+        allow[i] = s["out"]
+        if s["dv"]:
+            devs[i] = {d["d"]: d["out"] for d in s["dv"]}
+        if s["out"] == "err":
+            nrej[0] += 1
+            rep.nontrivial(i)
+        elif s["dv"]:
+            rep.nontrivial(i)
+        if i % 60013 == 1:
+            rep.sample({"scenario": {"item": s["item"], "links": s["links"]}, "allowed": [s["out"]]})
+
+    st = run_tlc("MC_C03", f"MC_C03_{tier}.cfg", "c03", on_scn=on_scn, timeout=3000)
+    require_clean(st, "MC_C03")
+    rep.add_tlc(st, "MC_C03")
+    rep.vacuity(["Apply", "NextList"])
+    rep.cov["exhaustive"] = True
+    rep.cov["spec_rejects"] = nrej[0]
+    log(f"C03: {sh.count} scenarios from TLC in {st.wall:.0f}s")
+    sh.run()
+    n = 0
+    for r in sh.results():
+        i = r["i"]
+        n += 1
+        o = r.get("out", "harness")
+        if o != allow[i]:
+            sig = {"kind": "outcome", "actual": o, "allowed": [allow[i]]}
+            ex = [d for d, out in devs.get(i, {}).items() if out == o]
+            if len(ex) >= 1:
+                sig["dev"] = sorted(ex)[0]
+            rep.mismatch(sig, lambda i=i, o=o: {"scn": dict(sh.scenario(i), allow=[allow[i]]), "actual": o})
+    rep.cov["evaluations"] = n
+    rep.cov["traces_validated_against_impl"] = n
+    sh.cleanup()
+    ntr = 4000 if tier == "quick" else 40000
+    trace = os.path.join(vlib.OUT, "c03.trace.ndjson")
+    run_itv(["record", "C03", str(ntr)], stdout_path=trace)
+    total, rejected, tst = validate_trace(trace, "Trace_Rules", "Trace_Rules.cfg", "t03")
+    rep.cov["traces_validated_against_impl"] += total - len(rejected)
+    rep.cov["parts"]["trace"] = {"runs": total, "rejected": len(rejected), "states": tst.distinct}
+    for rj in rejected:
+        ev = rj["lines"][rj["at"] - 1] if 0 < rj["at"] <= len(rj["lines"]) else None
+        rep.mismatch({"kind": "trace_rejected", "event_kind": (json.loads(ev).get("kind") if ev else None)},
+                     {"trace": rj["lines"], "at": rj["at"], "event": ev})
+    with open(trace) as f:
+        rep.sample({"trace_prefix": [json.loads(x) for x in f.read().split("\n")[:3] if x]})
+    os.remove(trace)
+    rep.assumptions += ["paths are normalised and relative, patterns use the portable syntax (* ? literals); the only uninterpretable pattern exercised is '[' in DISALLOW",
+                        "glob::Pattern with default options is trusted as the fnmatch implementation",
+                        "digests are compared as whole algorithm->value maps; sha256 only"]
